@@ -7,6 +7,8 @@
 (*   rec      : Network.RecursiveSteps()    | fast RecursiveSteps()                                                *)
 (*   relax k  : Network.ActivateSteps(k)    | fast Relax(k, delta > 0)                                             *)
 (*   act      : Network.Activate()          | fast Relax(2, 0)       (only with bounded activation functions)      *)
+(*   flush    : Network.Flush()             | fast Flush()           (a flush INSIDE the history or the suffix: an  *)
+(*                                            instance may be flushed any number of times in its life)              *)
 (* C13 is FlushRestores (the flushed state is the observable part of the fresh state) and SuffixEqual (after every *)
 (* suffix call outputs and error results of A and T coincide).                                                     *)
 (* The history is forgotten at the flush (it is printed there as a "hist" case), so the suffixes of one network    *)
@@ -58,6 +60,8 @@ Op(o, k, v) == [op |-> o, k |-> k, v |-> v]
 OpSet == { Op("load", 0, v) : v \in FullVectors } \cup { Op("fwd", k, <<>>) : k \in FwdKs }
          \cup { Op("relax", k, <<>>) : k \in RelaxKs }
          \cup (IF UseRec THEN {Op("rec", 0, <<>>)} ELSE {}) \cup (IF UseAct THEN {Op("act", 0, <<>>)} ELSE {})
+\* (the extra flushes are part of histories only: after the judged flush the twin comparison needs no more of them)
+HistOpSet == OpSet \cup {Op("flush", 0, <<>>)}
 
 \* one API call on an instance X = [std, fast]; the result carries what the caller observes
 Obs(nt, m, std, serr, fast) ==
@@ -78,6 +82,9 @@ Apply(o, X) ==
       [] o.op = "act" ->
            LET r == StdActivate(net, X.std)  f == FastRelax(fm, X.fast, 2, FALSE)
            IN  [X |-> [std |-> r.st, fast |-> f], obs |-> Obs(net, fm, r.st, r.err, f)]
+      [] o.op = "flush" ->
+           LET s == IF FlushWorks THEN StdFlush(net, X.std) ELSE X.std  f == IF FlushWorks THEN FastFlush(fm, X.fast) ELSE X.fast
+           IN  [X |-> [std |-> s, fast |-> f], obs |-> Obs(net, fm, s, FALSE, f)]
 
 Init == /\ shape \in Shapes /\ inc = [n \in Neurons |-> <<>>] /\ ph = "build" /\ cap \in LinkCaps
         /\ net = <<>> /\ fm = <<>> /\ A = <<>> /\ T = <<>> /\ ops = <<>> /\ log = <<>> /\ tlog = <<>>
@@ -132,7 +139,8 @@ EmitS == /\ ph = "suffix" /\ Len(ops) = MaxSuf /\ PrintT(ToJson(SufCase))
 \* (the bound sets are constant so that the simulator draws one action instance at a time)
 Next == \/ \E u \in AllNodes, v \in Hidden \cup OutSet, w \in Weights, td \in TdFlags : AddLink(u, v, w, td)
         \/ \E ok \in OrderKinds, sc \in ActSchemes : Seal(ok, sc)
-        \/ \E o \in OpSet : Do(o) \/ DoS(o)
+        \/ \E o \in HistOpSet : Do(o)
+        \/ \E o \in OpSet : DoS(o)
         \/ Flush \/ EmitS
 Spec == Init /\ [][Next]_vars
 
